@@ -541,7 +541,7 @@ package rapid
 
 //@ func (*T).Failed
 //@   requires [C14] unlocked(t)
-//@   ensures [C02,C14] result == (t.failed != "") && unlocked(t)
+//@   ensures [C02,C11,C14] result == (t.failed != "") && unlocked(t)
 //@   modifies lockmode[addr(t.mu)]
 
 //@ define cleaning(t) = t.cleaning.v != 0
@@ -618,12 +618,18 @@ package rapid
 // cbFalsified: a cleanup function has ended by a panic that is not a skip (since the outermost cleanup() began)
 //@ ghost cbFalsified Bool
 
+// cbPanicked: a cleanup function has ended by a panic (of any kind) since the ghost was last reset
+//@ ghost cbPanicked Bool
 //@ func (*T).cleanup
 //@   requires [C01,C10,C14] unlocked(t) && ctxInv(t)
 //   A failure of a cleanup function is not hidden by a skip of another one (C02): once a cleanup function has panicked
 //   with a non-skip value, the panic that leaves cleanup() is not a skip.
 //@   at cleanup#0 onpanic cbFalsified = cbFalsified || !isInvalidData(panicval)
 //@   ensures [C02] implies(!old(cbFalsified), !cbFalsified)
+//   ... and a skip raised by a cleanup function is not swallowed either (C13, C09: the test case is skipped, not
+//   passed): cleanup() returns normally only if no cleanup function panicked at all.
+//@   at cleanup#0 onpanic cbPanicked = true
+//@   ensures [C09,C13] implies(!old(cbPanicked), !cbPanicked)
 //   (C01 too: findBug re-uses the T; the case it reports must have run as it would on the fresh T of the replay)
 //@   ensures [C01,C10,C11,C14] len(t.cleanups) == 0 && t.ctx == nil && t.cancelCtx == nil && !cleaning(t)
 //@   ensures [C14] unlocked(t)
@@ -631,12 +637,13 @@ package rapid
 //@   ensures [C02] implies(old(t.failed) != "", t.failed != "")
 //@   ensures [C10] sameOrNewArr(t) && drawn >= old(drawn)
 //@   panics any [C01,C10,C11,C14]: drawn >= old(drawn) && sameOrNewArr(t) && len(t.cleanups) == 0 && t.ctx == nil && t.cancelCtx == nil && !cleaning(t) && unlocked(t) && implies(old(t.ctx) != nil, cancelled[old(t.ctx)]) && implies(old(t.failed) != "", t.failed != "") && implies(!old(cbFalsified) && cbFalsified, !isInvalidData(panicval))
-//@   modifies t.failed, t.cleanups, elems(t.cleanups), t.ctx, t.cancelCtx, t.cleaning.v, t.draws, t.attempts, drawn, cancelled[t.ctx], lockmode[addr(t.mu)], cbFalsified
+//@   modifies t.failed, t.cleanups, elems(t.cleanups), t.ctx, t.cancelCtx, t.cleaning.v, t.draws, t.attempts, drawn, cancelled[t.ctx], lockmode[addr(t.mu)], cbFalsified, cbPanicked
 //   LIFO (C10): the callback run is the one just popped from the top of the stack - the element right above the
 //   new top in the same backing array.
 //@   at cleanup#0 assert [C10] fnval == t.cleanups[len(t.cleanups)]
 //@   loop 0 invariant [C01,C10,C14] unlocked(t) && t.ctx == nil && t.cancelCtx == nil && cleaning(t)
 //@   loop 0 invariant [C02] cbFalsified == old(cbFalsified)
+//@   loop 0 invariant [C09,C13] cbPanicked == old(cbPanicked)
 //@   loop 0 invariant [C10] implies(old(t.ctx) != nil, cancelled[old(t.ctx)]) && implies(old(t.failed) != "", t.failed != "") && sameOrNewArr(t) && drawn >= old(drawn)
 
 //@ func newT
@@ -659,8 +666,20 @@ package rapid
 // cleanupFalsified: the cleanup phase of that test case ended by a panic that is not a skip
 //@ ghost cleanupFalsified Bool
 
+// p2eA, p2eB: what the two panicToError calls of checkOnce returned in this test case
+//@ ghost p2eA Ref
+//@ ghost p2eB Ref
 //@ func checkOnce
 //@   noframe "runs the property function"
+//   Every error checkOnce reports was made by panicToError from the panic in flight - so it carries that panic's
+//   traceback, the failure site accept compares (C05); an error assembled by hand would have none, or a shared one.
+//@   at prop#0 set p2eA = nil
+//@   at prop#0 set p2eB = nil
+//@   at prop#0 onpanic p2eA = nil
+//@   at prop#0 onpanic p2eB = nil
+//@   at panicToError#0 set p2eA = result
+//@   at panicToError#1 set p2eB = result
+//@   ensures [C05] result == nil || result == p2eA || result == p2eB
 //   The failure site starts at the frame that panicked: panicToError skips exactly its own frame, the recovering
 //   literal and runtime.Callers (3) - skipping more would drop the panicking function's own line (C05).
 //@   at panicToError#0 assert [C05] arg1 == 3
@@ -688,7 +707,7 @@ package rapid
 //@   ensures [C05] implies(result != nil, result.traceback != "    <no error>\n")
 //@   ensures drawn >= old(drawn)
 //@   ensures [C05] streamRely(t.s)
-//@   modifies t.failed, t.cleanups, elems(t.cleanups), t.ctx, t.cancelCtx, t.cleaning.v, t.draws, t.attempts, drawn, lockmode[addr(t.mu)], stream(t.s), propFalsified, cleanupSkipped, cancelled, discards, cleanupFalsified, cbFalsified
+//@   modifies t.failed, t.cleanups, elems(t.cleanups), t.ctx, t.cancelCtx, t.cleaning.v, t.draws, t.attempts, drawn, lockmode[addr(t.mu)], stream(t.s), propFalsified, cleanupSkipped, cancelled, discards, cleanupFalsified, cbFalsified, cbPanicked, p2eA, p2eB
 
 // ---------------------------------------------------------------------------------------------
 // combinators.go: Custom
@@ -716,7 +735,7 @@ package rapid
 //@   at newT#0 assert [C10] arg0 == t.tb && arg1 == t.s
 //@   ensures [C02] now(t).failed == ""
 //@   ensures [C10,C11] fresh(now(t)) && len(now(t).cleanups) == 0 && now(t).ctx == nil && now(t).cancelCtx == nil
-//@   modifies drawn, stream(t.s), cancelled, cbFalsified, genFalsified
+//@   modifies drawn, stream(t.s), cancelled, cbFalsified, genFalsified, cbPanicked
 
 // ---------------------------------------------------------------------------------------------
 // statemachine.go
@@ -727,16 +746,23 @@ package rapid
 // discardsAtAction: value of the ghost discard counter when the current action was chosen (executeAction)
 //@ ghost discardsAtAction Int
 
+// actFalsified: the action itself ended by a panic that is not a skip (invalid data)
+//@ ghost actFalsified Bool
 //@ func runAction
 //@   noframe "calls the user's action"
+//   Whatever the action raised other than a skip leaves runAction as a panic (C02): a failure signalled on another T -
+//   the inner T of a Custom generator drawn by the action - is a stopTest with nothing recorded on this T.
+//@   at action#0 set actFalsified = false
+//@   at action#0 onpanic actFalsified = !isInvalidData(panicval)
+//@   ensures [C02,C08] !actFalsified
 //@   assumes-nonnil-calls "the actions map given to Repeat holds no nil functions, and every key the key generator returns is in the map"
 //@   requires [C08] t.failed == "" && unlocked(t)
 //@   ensures [C02,C08] t.failed == "" && implies(skipped, invalid) && unlocked(t) && drawn >= old(drawn)
 //   An action counts as skipped only if it gave up before starting any Draw - then it has discarded nothing (C04).
-//@   ensures [C04,C07,C08,C11] implies(skipped, t.attempts == old(t.attempts) && discards == old(discards))
+//@   ensures [C01,C04,C07,C08,C11] implies(skipped, t.attempts == old(t.attempts) && discards == old(discards))
 //@   ensures [C04,C08] drawRely(t)
 //@   panics any [C02,C08]: unlocked(t) && implies(isInvalidData(panicval), t.failed != "") && drawRely(t)
-//@   modifies drawn, t.failed, t.cleanups, elems(t.cleanups), t.ctx, t.cancelCtx, t.draws, t.attempts, lockmode[addr(t.mu)], stream(t.s), discards
+//@   modifies drawn, t.failed, t.cleanups, elems(t.cleanups), t.ctx, t.cancelCtx, t.draws, t.attempts, lockmode[addr(t.mu)], stream(t.s), discards, actFalsified
 
 //@ func (*Generator).Draw
 //@   immutable g
@@ -764,7 +790,7 @@ package rapid
 //@   ensures [C04] t.attempts > old(t.attempts) && t.draws >= old(t.draws) && discards >= old(discards)
 //@   ensures [C08] result == !now(invalid) && !now(skipped)
 //@   panics any [C04,C08]: drawRely(t)
-//@   modifies drawn, t.failed, t.cleanups, elems(t.cleanups), t.ctx, t.cancelCtx, t.draws, t.attempts, lockmode[addr(t.mu)], stream(t.s), onceDone, onceIn, discards
+//@   modifies drawn, t.failed, t.cleanups, elems(t.cleanups), t.ctx, t.cancelCtx, t.draws, t.attempts, lockmode[addr(t.mu)], stream(t.s), onceDone, onceIn, discards, actFalsified
 //@   loop 0 invariant [C08] 0 <= n && n <= validActionTries && t.failed == "" && unlocked(t) && drawn >= old(drawn)
 //@   loop 0 invariant [C04] drawRely(t) && implies(n > 0, t.attempts > old(t.attempts))
 //@   loop 0 decreases validActionTries - n
@@ -791,7 +817,7 @@ package rapid
 //   Repeat itself obeys what is assumed of user code holding a *T (it is one of the ways user code reaches the stream):
 //@   ensures [C04] drawRely(t)
 //@   panics any [C04,C08]: drawRely(t)
-//@   modifies drawn, pendingCheck, t.failed, t.cleanups, elems(t.cleanups), t.ctx, t.cancelCtx, t.draws, lockmode[addr(t.mu)], stream(t.s), discardsAtAction, lastWord, onceDone, onceIn, discards, t.attempts, sortedG
+//@   modifies drawn, pendingCheck, t.failed, t.cleanups, elems(t.cleanups), t.ctx, t.cancelCtx, t.draws, lockmode[addr(t.mu)], stream(t.s), discardsAtAction, lastWord, onceDone, onceIn, discards, t.attempts, sortedG, actFalsified
 //   The action drawn for given bits does not depend on the iteration order of the actions map (C04, C07): the names
 //   are sampled from a slice in the total order on strings (map keys are distinct, so that order is unique).
 //@   at SampledFrom#0 assert [C04,C07] sortedG[arr(arg0)]
@@ -835,7 +861,7 @@ package rapid
 //   (non-skipped) action" failure (or in whatever the action itself raised).
 //@   ensures [C08] false
 //@   panics any [C08]: drawRely(t)
-//@   modifies drawn, t.failed, t.cleanups, elems(t.cleanups), t.ctx, t.cancelCtx, t.draws, t.attempts, lockmode[addr(t.mu)], stream(t.s), onceDone, onceIn, discards, discardsAtAction
+//@   modifies drawn, t.failed, t.cleanups, elems(t.cleanups), t.ctx, t.cancelCtx, t.draws, t.attempts, lockmode[addr(t.mu)], stream(t.s), onceDone, onceIn, discards, discardsAtAction, actFalsified
 //@   loop 0 invariant [C08] 0 <= n && n <= validActionTries && t.failed == "" && unlocked(t) && drawn >= old(drawn) && drawRely(t) && implies(n > 0, t.attempts > old(t.attempts))
 
 //@ func (*T).Repeat@stuck
@@ -848,7 +874,7 @@ package rapid
 //@   at sm.executeAction#0 set triedG = true
 //@   ensures [C08] !triedG
 //@   panics any [C08]: true
-//@   modifies drawn, pendingCheck, t.failed, t.cleanups, elems(t.cleanups), t.ctx, t.cancelCtx, t.draws, lockmode[addr(t.mu)], stream(t.s), discardsAtAction, lastWord, onceDone, onceIn, discards, t.attempts, sortedG, triedG
+//@   modifies drawn, pendingCheck, t.failed, t.cleanups, elems(t.cleanups), t.ctx, t.cancelCtx, t.draws, lockmode[addr(t.mu)], stream(t.s), discardsAtAction, lastWord, onceDone, onceIn, discards, t.attempts, sortedG, triedG, actFalsified
 //@   loop 1 invariant [C08] t.failed == "" && unlocked(t) && repeatInv(repeat) && groupUsed(repeat) && drawRely(t) && implies(repeat.rejected, t.attempts > old(t.attempts))
 //   No step ever comes back to the head of the loop.
 //@   loop 1 invariant [C08] !triedG
@@ -900,7 +926,7 @@ package rapid
 //@   ensures [C09] implies(result2, now(iter) > 0 && int64(untilG) < int64(now(total)) / int64(now(iter)) * 5)
 //@   at time.Until#0 set untilG = result
 //@   ensures [C01,C02] sawFailure == (result4 != nil)
-//@   modifies heap, drawn, runs, lastInit, sawFailure, lockmode, cancelled, cleanupSkipped, propFalsified, untilG, discards, cleanupFalsified, cbFalsified, caseWall, caseExt, caseRuns, totalG
+//@   modifies heap, drawn, runs, lastInit, sawFailure, lockmode, cancelled, cleanupSkipped, propFalsified, untilG, discards, cleanupFalsified, cbFalsified, caseWall, caseExt, caseRuns, totalG, cbPanicked, p2eA, p2eB
 //@   at r.init#0 assert [C07] implies(valid + invalid == 0, arg0 == old(seed))
 //   Test cases within one run differ (C18): every case is seeded differently from the one before it.
 //@   at r.init#0 assert [C18] implies(valid + invalid > 0, arg0 != lastInit)
@@ -957,7 +983,7 @@ package rapid
 //@   ensures [C17] tbFailed == old(tbFailed) && tbErrors == old(tbErrors)
 //@   ensures [C17] implies(result1 != nil || result2 != nil, result1 != nil && !isInvalidData(result1.data))
 //@   ensures [C17] implies(now(err) != nil || now(version) != rapidVersion, result1 == nil && result2 == nil && len(result0) == 0)
-//@   modifies heap, drawn, lockmode, cancelled, cleanupSkipped, ioFailed, propFalsified, fsClosed, discards, cleanupFalsified, cbFalsified, ffLoggedG
+//@   modifies heap, drawn, lockmode, cancelled, cleanupSkipped, ioFailed, propFalsified, fsClosed, discards, cleanupFalsified, cbFalsified, ffLoggedG, cbPanicked, p2eA, p2eB
 
 // saveFailFile (C16): every crash point leaves either no file under the final name or a complete one.
 // The only call that creates or changes a file under a name the discovery pattern can match is os.Rename;
@@ -1001,7 +1027,7 @@ package rapid
 //@   noframe "runs the property"
 //@   assumes-pre !flags.debugvis
 //@   requires [C05] prop != nil && err != nil && err.traceback != "    <no error>\n" && rec.persist && recWF(rec)
-//@   modifies heap, drawn, lockmode, cancelled, cleanupSkipped, cmpAt, lessAt, propFalsified, discards, cleanupFalsified, cbFalsified
+//@   modifies heap, drawn, lockmode, cancelled, cleanupSkipped, cmpAt, lessAt, propFalsified, discards, cleanupFalsified, cbFalsified, cbPanicked, p2eA, p2eB
 
 // The pass loop of the shrinker: the invariant holds at every pass call (each pass is under contract, see the end of
 // this file), and what is returned is the current best recording - on the normal path together with its error, on the
@@ -1015,7 +1041,7 @@ package rapid
 //@   requires [C05] forall(k, 0, len(s.rec.groups), !s.rec.groups[k].discard)
 //@   ensures [C01,C05] flags.debugvis == old(flags.debugvis)
 //@   ensures [C01,C05] arr(result0) == arr(s.rec.data) && off(result0) == off(s.rec.data) && len(result0) == len(s.rec.data)
-//@   modifies heap, drawn, lockmode, cancelled, cmpAt, lessAt, propFalsified, cleanupSkipped, discards, cleanupFalsified, cbFalsified
+//@   modifies heap, drawn, lockmode, cancelled, cmpAt, lessAt, propFalsified, cleanupSkipped, discards, cleanupFalsified, cbFalsified, cbPanicked, p2eA, p2eB
 //@   loop 0 invariant [C01,C05] shrInv(s) && !flags.debugvis
 //@   loop 1 invariant true
 
@@ -1038,7 +1064,7 @@ package rapid
 //@   ensures [C07] implies(searched && (result6 != nil || result7 != nil), result3 == lastInit)
 //@   ensures [C09] implies(result6 == nil && result7 == nil, searched && result3 == 0 && result4 == "")
 //@   ensures [C02,C17] tbFailed == old(tbFailed) && tbErrors == old(tbErrors)
-//@   modifies heap, drawn, runs, lastInit, searched, sawFailure, lockmode, cancelled, ffFalsified, cleanupSkipped, propFalsified, runesWritten, ioFailed, fsClosed, cmpAt, lessAt, untilG, ffTried, discards, globbed, cleanupFalsified, cbFalsified, caseExt, caseRuns, caseWall, totalG, ffLoggedG
+//@   modifies heap, drawn, runs, lastInit, searched, sawFailure, lockmode, cancelled, ffFalsified, cleanupSkipped, propFalsified, runesWritten, ioFailed, fsClosed, cmpAt, lessAt, untilG, ffTried, discards, globbed, cleanupFalsified, cbFalsified, caseExt, caseRuns, caseWall, totalG, ffLoggedG, cbPanicked, p2eA, p2eB
 //@   at findBug#0 assert [C07,C17,C18] seed == old(seed) && checks == old(checks) && !tbFailed
 //@   at failFilePattern#0 assert [C06] arg0 == tbNameOf(tb)
 //   The test's own fail-file directory is searched whenever the caller asks for it, whether or not an explicit
@@ -1052,6 +1078,9 @@ package rapid
 //@   at findBug#0 assert [C06,C17] ffTried == len(failfiles)
 //@   at findBug#0 assert [C02,C06,C09] !ffFalsified
 //@   at findBug#0 set searched = true
+//   The time allowed for minimisation starts when minimisation starts (C12 "given enough time", C05): the shrink
+//   deadline is computed after the search and the reproduction run, not before them.
+//@   at shrinkDeadline#0 assert [C05,C12] searched && sawFailure
 //@   at newRandomBitStream#0 assert [C07] arg0 == lastInit && arg1
 //@   loop 0 invariant [C07,C17,C18] seed == old(seed) && checks == old(checks) && tbFailed == old(tbFailed) && tbErrors == old(tbErrors) && !searched && -1 <= rangeindex && rangeindex < len(failfiles)
 //@   loop 0 invariant [C02,C06,C09] !ffFalsified
@@ -1066,11 +1095,17 @@ package rapid
 // capturedOut: the backing array of the output captured by the most recent captureTestOutput in checkTB
 //@ ghost capturedOut Ref
 
+// bufOutG: the bytes the log buffer of captureTestOutput holds when it is read
+//@ ghost bufOutG Ref
 //@ func captureTestOutput
 //@   noframe "runs the property"
 //@   requires prop != nil
 //@   ensures tbFailed == old(tbFailed) && tbErrors == old(tbErrors)
-//@   modifies heap, drawn, lockmode, cancelled, cleanupSkipped, propFalsified, discards, cleanupFalsified, cbFalsified
+//   The output goes into the fail file as it was written, byte for byte (C06: whatever the failing case logs - long
+//   lines, binary data - the file written is the file loadFailFile was built to read back).
+//@   at b.Bytes#0 set bufOutG = arr(result)
+//@   ensures [C06] arr(result) == bufOutG
+//@   modifies heap, drawn, lockmode, cancelled, cleanupSkipped, propFalsified, discards, cleanupFalsified, cbFalsified, bufOutG, cbPanicked, p2eA, p2eB
 
 //@ func checkTB
 //@   noframe "runs the property"
@@ -1082,7 +1117,7 @@ package rapid
 //@   ensures [C09] tbErrors == old(tbErrors)
 //@   panics goexit [C02,C06,C09,C16]: tbFailed && tbErrors == old(tbErrors) + 1 && fsRenames <= old(fsRenames) + 1
 //@   ensures [C06,C16] fsRenames <= old(fsRenames) + 1
-//@   modifies heap, drawn, runs, lastInit, searched, sawFailure, lockmode, cancelled, tbFailed, tbErrors, fsWritten, fsClosed, fsRenamed, fsTmpName, fsTmpDir, fsRenamedAtCreate, fsRenames, runesWritten, capturedOut, cleanupSkipped, ffFalsified, propFalsified, ioFailed, cmpAt, lessAt, untilG, joinedG, fsOtherCreate, ffTried, discards, cleanupFalsified, globbed, cbFalsified, fsWriteErr, caseExt, caseRuns, caseWall, totalG, ffLoggedG
+//@   modifies heap, drawn, runs, lastInit, searched, sawFailure, lockmode, cancelled, tbFailed, tbErrors, fsWritten, fsClosed, fsRenamed, fsTmpName, fsTmpDir, fsRenamedAtCreate, fsRenames, runesWritten, capturedOut, cleanupSkipped, ffFalsified, propFalsified, ioFailed, cmpAt, lessAt, untilG, joinedG, fsOtherCreate, ffTried, discards, cleanupFalsified, globbed, cbFalsified, fsWriteErr, caseExt, caseRuns, caseWall, totalG, ffLoggedG, bufOutG, cbPanicked, p2eA, p2eB
 //@   at captureTestOutput#0 set capturedOut = arr(result)
 //@   at saveFailFile#0 assert [C06,C16] fsRenames == old(fsRenames) && arr(arg2) == capturedOut
 //   The fail file is saved under the directory and name derived from the very test name that doCheck globs for.
@@ -1114,7 +1149,7 @@ package rapid
 //@   requires [C13] prop != nil
 //@   ensures [C13] now(err) == nil && tbFailed == old(tbFailed)
 //@   panics goexit [C13]: true
-//@   modifies heap, drawn, lockmode, cancelled, tbFailed, tbSkipped, cleanupSkipped, propFalsified, discards, cleanupFalsified, cbFalsified
+//@   modifies heap, drawn, lockmode, cancelled, tbFailed, tbSkipped, cleanupSkipped, propFalsified, discards, cleanupFalsified, cbFalsified, cbPanicked, p2eA, p2eB
 //@   at newBufBitStream#0 assert [C13] !arg1 && len(arg0) == (old(len(input)) + 7) / 8
 //@   at newBufBitStream#0 assert [C13] forall(j, 0, len(arg0), arg0[j] == fuzzWords[j])
 //@   at binary.LittleEndian.Uint64#0 ensure [C13] trig(len(buf)) || !trig(len(buf))
@@ -1290,7 +1325,7 @@ package rapid
 //@   panics testError [C01]: flags.debugvis == old(flags.debugvis) && refOf(panicval) == now(err2)
 //@   ensures [C01,C05] flags.debugvis == old(flags.debugvis)
 //@   ensures [C01,C05] arr(s.rec.groups) == old(arr(s.rec.groups)) || fresh(arr(s.rec.groups)) || arr(s.rec.groups) == nil
-//@   modifies heap, drawn, lockmode, cancelled, cmpAt, lessAt, cleanupSkipped, propFalsified, discards, cleanupFalsified, cbFalsified
+//@   modifies heap, drawn, lockmode, cancelled, cmpAt, lessAt, cleanupSkipped, propFalsified, discards, cleanupFalsified, cbFalsified, cbPanicked, p2eA, p2eB
 
 // ---------------------------------------------------------------------------------------------
 // Reachability (C18, C12): witnessed scenarios. For every max and every v <= max there is a geometric draw n
@@ -1347,8 +1382,76 @@ package rapid
 //@   modifies heap, drawn, discards, lastWord
 //@ func (*regexpGen).build
 //@   trusted "regexp-driven construction of a string: regexp/syntax trees are outside the modelled subset"
+//   ... but the generator object is shared by every check that draws from it (C15): build keeps nothing on it.
+//@   nostore [C15] regexpGen, regexpStringGen, regexpSliceGen
 //@   panics any: true
 //@   modifies heap, drawn, discards, lastWord
+
+// RuneFrom draws from the caller's list as given - the same runes in the same order, so that the rune an index
+// word selects does not depend on anything but the arguments (C07, C04).
+//@ func runesFrom
+//@   noframe "process-wide table cache"
+//@   nosafety "only what the generator is built from is under proof"
+//@   ensures [C04,C07] hasType(result.impl, runeGen) && arr(deref(result.impl, runeGen).runes) == arr(runes) && off(deref(result.impl, runeGen).runes) == off(runes) && len(deref(result.impl, runeGen).runes) == len(runes)
+//@   panics any: true
+//@   modifies published, heap
+//@   loop 0 invariant true
+//@   loop 1 invariant true
+//@ func newLoadedDie
+//@   trusted "alias table of a loaded die from small positive weights: no property here rests on it"
+//@   ensures result != nil
+//@   panics any: true
+
+// The full-range integer constructors ask for the table entry of their own kind (C18, C03: the kind table - pinned in
+// init - gives every kind the bounds of its Go type; a constructor that names another kind draws from that kind's
+// range: in bounds when it is narrower, never reaching its own extremes).
+//@ func Byte
+//@   at newIntegerGen#0 assert [C03,C18] arg0 == byteKind
+//@   panics any: true
+//@ func Int
+//@   at newIntegerGen#0 assert [C03,C18] arg0 == intKind
+//@   panics any: true
+//@ func Int8
+//@   at newIntegerGen#0 assert [C03,C18] arg0 == int8Kind
+//@   panics any: true
+//@ func Int16
+//@   at newIntegerGen#0 assert [C03,C18] arg0 == int16Kind
+//@   panics any: true
+//@ func Int32
+//@   at newIntegerGen#0 assert [C03,C18] arg0 == int32Kind
+//@   panics any: true
+//@ func Int64
+//@   at newIntegerGen#0 assert [C03,C18] arg0 == int64Kind
+//@   panics any: true
+//@ func Uint
+//@   at newIntegerGen#0 assert [C03,C18] arg0 == uintKind
+//@   panics any: true
+//@ func Uint8
+//@   at newIntegerGen#0 assert [C03,C18] arg0 == uint8Kind
+//@   panics any: true
+//@ func Uint16
+//@   at newIntegerGen#0 assert [C03,C18] arg0 == uint16Kind
+//@   panics any: true
+//@ func Uint32
+//@   at newIntegerGen#0 assert [C03,C18] arg0 == uint32Kind
+//@   panics any: true
+//@ func Uint64
+//@   at newIntegerGen#0 assert [C03,C18] arg0 == uint64Kind
+//@   panics any: true
+//@ func Uintptr
+//@   at newIntegerGen#0 assert [C03,C18] arg0 == uintptrKind
+//@   panics any: true
+
+// The collection constructors hand their bounds on unchanged (C03: the length limits a caller asked for are the
+// limits the value methods - proved against the generator's fields - enforce).
+//@ func SliceOfN
+//@   nosafety "constructor: only which bounds are stored is under proof"
+//@   at newGenerator#0 assert [C03] boxed0.minLen == minLen && boxed0.maxLen == maxLen && boxed0.elem == elem
+//@   panics any: true
+//@ func SliceOfNDistinct
+//@   nosafety "constructor: only which bounds are stored is under proof"
+//@   at newGenerator#0 assert [C03] boxed0.minLen == minLen && boxed0.maxLen == maxLen && boxed0.elem == elem
+//@   panics any: true
 
 // A character-class generator is built around the table the process-wide cache hands out: that table is shared with
 // every other generator of the class (and with concurrent checks) and is used as it is, never written (C15).
@@ -1472,7 +1575,7 @@ package rapid
 //@   ensures [C10] len(t.cleanups) == 0 && t.ctx == nil && t.cancelCtx == nil && !cleaning(t) && unlocked(t)
 //@   ensures [C10] 1 <= result1 && result1 <= exampleMaxTries
 //@   panics any [C10]: len(t.cleanups) == 0 && t.ctx == nil && t.cancelCtx == nil && !cleaning(t) && unlocked(t)
-//@   modifies drawn, t.failed, t.cleanups, elems(t.cleanups), t.ctx, t.cancelCtx, t.cleaning.v, t.draws, t.attempts, cancelled, lockmode[addr(t.mu)], stream(t.s), onceDone, onceIn, discards, cbFalsified
+//@   modifies drawn, t.failed, t.cleanups, elems(t.cleanups), t.ctx, t.cancelCtx, t.cleaning.v, t.draws, t.attempts, cancelled, lockmode[addr(t.mu)], stream(t.s), onceDone, onceIn, discards, cbFalsified, cbPanicked
 //@   loop 0 invariant [C10] 1 <= i && i <= exampleMaxTries && unlocked(t) && ctxInv(t) && !cleaning(t)
 
 //@ func (*Generator).Example
@@ -1482,7 +1585,7 @@ package rapid
 //@   at example#0 assert [C10] clean(arg1) && unlocked(arg1) && fresh(arg1)
 //@   at example#0 assert [C04,C07] hasType(arg1.s, randomBitStream) && !deref(arg1.s, randomBitStream).persist
 //@   at newRandomBitStream#0 assert [C04,C07] implies(len(seed) > 0, arg0 == seed[0]) && !arg1
-//@   modifies heap, drawn, lockmode, cancelled, onceDone, onceIn, discards, cbFalsified
+//@   modifies heap, drawn, lockmode, cancelled, onceDone, onceIn, discards, cbFalsified, cbPanicked
 
 // ---------------------------------------------------------------------------------------------
 // make.go: the kind switch of Make (C03: "the requested dynamic type for Make"). dynKind(g) is the reflect.Kind of
@@ -1542,7 +1645,7 @@ package rapid
 //@   requires [C01,C05] shrInv(s)
 //@   ensures [C01,C05] shrInv(s) && flags.debugvis == old(flags.debugvis)
 //@   panics testError [C01,C05]: flags.debugvis == old(flags.debugvis)
-//@   modifies heap, drawn, lockmode, cancelled, cmpAt, lessAt, propFalsified, cleanupSkipped, discards, cleanupFalsified, cbFalsified
+//@   modifies heap, drawn, lockmode, cancelled, cmpAt, lessAt, propFalsified, cleanupSkipped, discards, cleanupFalsified, cbFalsified, cbPanicked, p2eA, p2eB
 //@   loop 0 invariant [C01,C05] shrInv(s) && flags.debugvis == old(flags.debugvis)
 
 //@ func (*shrinker).lowerFloatHack
@@ -1552,7 +1655,7 @@ package rapid
 //@   requires [C01,C05] shrInv(s)
 //@   ensures [C01,C05] shrInv(s) && flags.debugvis == old(flags.debugvis)
 //@   panics testError [C01,C05]: flags.debugvis == old(flags.debugvis)
-//@   modifies heap, drawn, lockmode, cancelled, cmpAt, lessAt, propFalsified, cleanupSkipped, discards, cleanupFalsified, cbFalsified
+//@   modifies heap, drawn, lockmode, cancelled, cmpAt, lessAt, propFalsified, cleanupSkipped, discards, cleanupFalsified, cbFalsified, cbPanicked, p2eA, p2eB
 //@   loop 0 invariant [C01,C05] shrInv(s) && flags.debugvis == old(flags.debugvis)
 
 //@ func (*shrinker).removeGroupsAndLower
@@ -1562,7 +1665,7 @@ package rapid
 //@   requires [C01,C05] shrInv(s)
 //@   ensures [C01,C05] shrInv(s) && flags.debugvis == old(flags.debugvis)
 //@   panics testError [C01,C05]: flags.debugvis == old(flags.debugvis)
-//@   modifies heap, drawn, lockmode, cancelled, cmpAt, lessAt, propFalsified, cleanupSkipped, discards, cleanupFalsified, cbFalsified
+//@   modifies heap, drawn, lockmode, cancelled, cmpAt, lessAt, propFalsified, cleanupSkipped, discards, cleanupFalsified, cbFalsified, cbPanicked, p2eA, p2eB
 //@   loop 0 invariant [C01,C05] shrInv(s) && flags.debugvis == old(flags.debugvis)
 //@   loop 1 invariant [C01,C05] shrInv(s) && flags.debugvis == old(flags.debugvis)
 
@@ -1573,7 +1676,7 @@ package rapid
 //@   requires [C01,C05] shrInv(s)
 //@   ensures [C01,C05] shrInv(s) && flags.debugvis == old(flags.debugvis)
 //@   panics testError [C01,C05]: flags.debugvis == old(flags.debugvis)
-//@   modifies heap, drawn, lockmode, cancelled, cmpAt, lessAt, propFalsified, cleanupSkipped, discards, cleanupFalsified, cbFalsified
+//@   modifies heap, drawn, lockmode, cancelled, cmpAt, lessAt, propFalsified, cleanupSkipped, discards, cleanupFalsified, cbFalsified, cbPanicked, p2eA, p2eB
 //@   loop 0 invariant [C01,C05] shrInv(s) && flags.debugvis == old(flags.debugvis)
 //@   loop 1 invariant [C01,C05] shrInv(s) && flags.debugvis == old(flags.debugvis)
 //@   loop 2 invariant [C01,C05] shrInv(s) && flags.debugvis == old(flags.debugvis)
@@ -1585,7 +1688,7 @@ package rapid
 //@   requires [C01,C05] shrInv(s)
 //@   ensures [C01,C05] shrInv(s) && flags.debugvis == old(flags.debugvis)
 //@   panics testError [C01,C05]: flags.debugvis == old(flags.debugvis)
-//@   modifies heap, drawn, lockmode, cancelled, cmpAt, lessAt, propFalsified, cleanupSkipped, discards, cleanupFalsified, cbFalsified
+//@   modifies heap, drawn, lockmode, cancelled, cmpAt, lessAt, propFalsified, cleanupSkipped, discards, cleanupFalsified, cbFalsified, cbPanicked, p2eA, p2eB
 //@   loop 0 invariant [C01,C05] shrInv(s) && flags.debugvis == old(flags.debugvis)
 //@   loop 1 invariant [C01,C05] shrInv(s) && flags.debugvis == old(flags.debugvis) && fresh(arr(groups)) && arr(groups) != arr(s.rec.groups)
 
@@ -1604,7 +1707,7 @@ package rapid
 //@   requires [C01,C05] shrInv(s)
 //@   ensures [C01,C05] shrInv(old(s)) && flags.debugvis == old(flags.debugvis)
 //@   panics testError [C01,C05]: flags.debugvis == old(flags.debugvis)
-//@   modifies heap, drawn, lockmode, cancelled, cmpAt, lessAt, propFalsified, cleanupSkipped, discards, cleanupFalsified, cbFalsified, acceptedG
+//@   modifies heap, drawn, lockmode, cancelled, cmpAt, lessAt, propFalsified, cleanupSkipped, discards, cleanupFalsified, cbFalsified, acceptedG, cbPanicked, p2eA, p2eB
 
 // Second contract of minimizeBlocks, about its own loop (the contract below is what callers use): every word the
 // loop passes is handed to minimize, exactly that word, none left out for its value (C12: the boundary of a
